@@ -106,6 +106,19 @@ impl Interval {
                 return Err(anyhow!("Empty interval"));
             }
         }
+        let gcd = self.stride.gcd(other.stride);
+        if (self.stride / gcd) as u128 * other.stride as u128 > u64::MAX as u128 {
+            // The stride of the intersection (the least common multiple of the strides) is not representable.
+            // But then at most one value of the 64-bit range can be contained in both intervals.
+            return match compute_unique_common_value(self, other) {
+                Some(value) if start.try_to_i128()? <= value && value <= end.try_to_i128()? => {
+                    let value =
+                        Bitvector::from_i64(value as i64).into_truncate(start.bytesize())?;
+                    Ok(value.into())
+                }
+                _ => Err(anyhow!("Empty interval")),
+            };
+        }
         if let Some((stride, remainder)) = compute_intersection_residue_class(self, other)? {
             Interval { start, end, stride }.adjust_to_stride_and_remainder(stride, remainder)
         } else {
@@ -509,6 +522,31 @@ fn extended_gcd(a: i128, b: i128) -> (i128, i128, i128) {
         let (g, left_inverse, right_inverse) = extended_gcd(b % a, a);
         (g, right_inverse - (b / a) * left_inverse, left_inverse)
     }
+}
+
+/// For two intervals (of at most 8 bytes) whose strides have a least common multiple larger than [`u64::MAX`]
+/// compute the only value that can be contained in both intervals:
+/// Two values `start_left + t * stride_left` in the residue class of the other interval differ by a multiple of the least common multiple.
+fn compute_unique_common_value(
+    interval_left: &Interval,
+    interval_right: &Interval,
+) -> Option<i128> {
+    let (stride_left, stride_right) = (interval_left.stride as i128, interval_right.stride as i128);
+    let start_left = interval_left.start.try_to_i64().ok()? as i128;
+    let start_diff = interval_right.start.try_to_i64().ok()? as i128 - start_left;
+    let (gcd, left_inverse, _) = extended_gcd(stride_left, stride_right);
+    if start_diff % gcd != 0 {
+        return None;
+    }
+    // `start_left + t * stride_left = start_right (modulo stride_right)` holds if and only if
+    // `t = (start_diff / gcd) * left_inverse (modulo stride_right / gcd)`
+    let modulus = stride_right / gcd;
+    let t = (start_diff / gcd).rem_euclid(modulus) as u128
+        * left_inverse.rem_euclid(modulus) as u128
+        % modulus as u128;
+    // Both factors are smaller than 2^64. Values with an offset larger than `u64::MAX` are not contained in the left interval.
+    let offset = u64::try_from(t * stride_left as u128).ok()?;
+    Some(start_left + offset as i128)
 }
 
 /// Compute the stride and the residue class of the intersection of the given intervals using the chinese remainder theorem.
